@@ -116,7 +116,7 @@ Section Scopes.
   Theorem resolved_print_parse : forall e, wf e -> forall rest,
     match parse_cond (pr (cs e) ++ 125%N :: 125%N :: rest) with
     | POk e' r => cs e' = cs e /\ r = 125%N :: 125%N :: rest
-    | PFail _ => False
+    | PFail _ _ => False
     end.
   Proof.
     intros e H rest. destruct pr_convert_all as [Hp _]. rewrite (Hp e (wf_raw e H)).
